@@ -174,6 +174,26 @@ def free_running(chk, col, bindir, tier, release=False, tag=""):
     col.flush("free" + tag)
 
 
+def perturbed(chk, col, bindir, tier, release=False, tag=""):
+    """free-running batches with shaken timing: random short sleeps at the protocol points (seeded), and
+    the process confined to one / two CPUs (preemption-driven interleavings); traced, full logs, so the
+    runs are judged at property level AND searched for in the algorithm-level model"""
+    seed = chk.seed
+    n = 150 if tier == "quick" else 600
+    plans = [("jit300", "set jitter=300 jseed=%d" % (seed * 13 + 5), None)]
+    if tier != "quick":
+        plans += [("jit900", "set jitter=900 jseed=%d" % (seed * 13 + 6), None),
+                  ("cpu1", "set jitter=0", "0"), ("cpu2-jit200", "set jitter=200 jseed=%d" % (seed * 13 + 7), "0,1")]
+    for (name, setline, cpus) in plans:
+        script = [setline, "baseline",
+                  "batch n=%d seed=%d conc=6 panic=25 drop=45" % (n, seed * 17 + 1), "quiesce",
+                  "batch n=%d seed=%d conc=1 panic=25 drop=45" % (n, seed * 17 + 2), "quiesce"]
+        r = T.run_probe(chk, bindir, "perturbed-%s%s" % (name, tag), script, strace=True, timeout=600, cpus=cpus)
+        r.release = release
+        col.add(r, "free")
+    col.flush("perturbed" + tag)
+
+
 def big_batches(chk, col, bindir, tier, release=False, tag=""):
     """histories of thousands of threads, free running, no tracer: heap multiset / thread count /
     VmSize back at baseline after each batch"""
